@@ -820,3 +820,660 @@ Proof.
   intros E H. rewrite ch_right_skip by lra. rewrite ch_right_head by lra.
   rewrite <- E, lp_at_xl. reflexivity.
 Qed.
+
+Lemma optsum_comm a b : optsum ROps a b = optsum ROps b a.
+Proof. destruct a, b; cbn; lra. Qed.
+
+(* an emitted event carries the sums of the left and of the right limits *)
+Definition ev_ok (P1 P2 : list LP) (e : R * R * R) : Prop :=
+  snd3 e = optsum ROps (ch_left P1 (fst3 e)) (ch_left P2 (fst3 e)) /\
+  snd e = optsum ROps (ch_right P1 (fst3 e)) (ch_right P2 (fst3 e)).
+
+Lemma ev_ok_comm P1 P2 e : ev_ok P1 P2 e -> ev_ok P2 P1 e.
+Proof. unfold ev_ok. rewrite (optsum_comm (ch_left P1 _)), (optsum_comm (ch_right P1 _)). auto. Qed.
+Lemma ev_ok_skip1 c P1 P2 e : lp_xr c < fst3 e -> ev_ok P1 P2 e -> ev_ok (c :: P1) P2 e.
+Proof. unfold ev_ok. intros H. rewrite ch_left_skip, ch_right_skip by lra. auto. Qed.
+Lemma ev_ok_skip2 c P1 P2 e : lp_xr c < fst3 e -> ev_ok P1 P2 e -> ev_ok P1 (c :: P2) e.
+Proof. unfold ev_ok. intros H. rewrite ch_left_skip, ch_right_skip by lra. auto. Qed.
+
+(* loop followed by the tail copy *)
+Definition full (fuel : nat) (c1 : LP) (r1 : list LP) (c2 : LP) (r2 : list LP) : list (R * R * R) :=
+  let '(out, (d1, s1, d2, s2)) := pwl_add_loop ROps fuel c1 r1 c2 r2 in
+  out ++ match s1, s2 with
+         | _ :: _, _ => pwl_add_tail ROps d1 s1 d2
+         | [], _ :: _ => pwl_add_tail ROps d2 s2 d1
+         | [], [] => []
+         end.
+
+Lemma full_nil1 fuel c1 c2 r2 :
+  full fuel c1 [] c2 r2 = match r2 with [] => [] | _ :: _ => pwl_add_tail ROps c2 r2 c1 end.
+Proof. destruct fuel, r2; reflexivity. Qed.
+Lemma full_nil2 fuel c1 n1 r1 c2 :
+  full fuel c1 (n1 :: r1) c2 [] = pwl_add_tail ROps c1 (n1 :: r1) c2.
+Proof. destruct fuel; reflexivity. Qed.
+Lemma full_step k c1 n1 r1 c2 n2 r2 :
+  full (S k) c1 (n1 :: r1) c2 (n2 :: r2)
+  = if Rltb (lp_xr c1) (lp_xr c2) then
+      (lp_xr c1, lp_yb c1 + lp_at ROps c2 (lp_xr c1), lp_ya n1 + lp_at ROps c2 (lp_xr c1))
+        :: full k n1 r1 c2 (n2 :: r2)
+    else if Rltb (lp_xr c2) (lp_xr c1) then
+      (lp_xr c2, lp_yb c2 + lp_at ROps c1 (lp_xr c2), lp_ya n2 + lp_at ROps c1 (lp_xr c2))
+        :: full k c1 (n1 :: r1) n2 r2
+    else
+      (lp_xr c1, lp_yb c1 + lp_yb c2, lp_ya n1 + lp_ya n2) :: full k n1 r1 n2 r2.
+Proof.
+  unfold full. cbn [pwl_add_loop nltb nadd ROps].
+  destruct (Rltb (lp_xr c1) (lp_xr c2)).
+  - destruct (pwl_add_loop ROps k n1 r1 c2 (n2 :: r2)) as [out [[[d1 s1] d2] s2]]. reflexivity.
+  - destruct (Rltb (lp_xr c2) (lp_xr c1)).
+    + destruct (pwl_add_loop ROps k c1 (n1 :: r1) n2 r2) as [out [[[d1 s1] d2] s2]]. reflexivity.
+    + destruct (pwl_add_loop ROps k n1 r1 n2 r2) as [out [[[d1 s1] d2] s2]]. reflexivity.
+Qed.
+
+(* the tail copy: [o] is the last piece of the exhausted operand *)
+Lemma tail_ok : forall r c o, chain c r -> lp_xl o < lp_xr o -> lp_xl o < lp_xr c ->
+  lastxr c r = lp_xr o ->
+  Forall (ev_ok (c :: r) [o]) (pwl_add_tail ROps c r o)
+  /\ map fst3 (pwl_add_tail ROps c r o) = inner c r.
+Proof.
+  induction r as [|n r IH]; intros c o Hc Ho Hoc Hl; cbn [pwl_add_tail inner].
+  - split; [constructor | reflexivity].
+  - cbn [lastxr] in Hl. destruct Hc as (H1 & H2 & H3).
+    pose proof (chain_pos n r H3) as Pn. pose proof (chain_lastxr r n H3) as Qn.
+    destruct (IH n o H3 Ho ltac:(lra) Hl) as [I1 I2]. split.
+    + constructor.
+      * unfold ev_ok, fst3, snd3. cbn [fst snd].
+        rewrite ch_left_junction, ch_right_junction by auto.
+        rewrite ch_left_head, ch_right_head by lra. cbn [optsum nadd ROps]. auto.
+      * destruct (inner_props r n H3) as [_ B]. rewrite <- I2 in B. rewrite Forall_map in B.
+        rewrite Forall_forall in *. intros e He. apply ev_ok_skip1; [|auto].
+        destruct (B e He). lra.
+    + cbn [map]. rewrite I2. reflexivity.
+Qed.
+
+Definition good (c1 : LP) (r1 : list LP) (c2 : LP) (r2 : list LP) (evs : list (R * R * R)) : Prop :=
+  Forall (ev_ok (c1 :: r1) (c2 :: r2)) evs
+  /\ ssorted (map fst3 evs)
+  /\ Forall (fun x => lp_xl c1 < x /\ lp_xl c2 < x /\ x < lastxr c1 r1) (map fst3 evs)
+  /\ (forall x, In x (map fst3 evs) <-> In x (inner c1 r1) \/ In x (inner c2 r2)).
+
+Lemma good_tail1 c1 n1 r1 c2 : chain c1 (n1 :: r1) -> chain c2 [] ->
+  lp_xl c1 < lp_xr c2 -> lp_xl c2 < lp_xr c1 -> lastxr c1 (n1 :: r1) = lp_xr c2 ->
+  good c1 (n1 :: r1) c2 [] (pwl_add_tail ROps c1 (n1 :: r1) c2).
+Proof.
+  intros H1 H2 A B L. pose proof (chain_pos _ _ H1) as P1. pose proof (chain_pos _ _ H2) as P2.
+  destruct (tail_ok (n1 :: r1) c1 c2 H1 P2 B L) as [T1 T2].
+  destruct (inner_props _ _ H1) as [I1 I2].
+  unfold good. rewrite T2. repeat split; auto.
+  - eapply Forall_impl; [|apply I2]. cbn beta. intros x [Q1 Q2]. lra.
+  - intros [H|H]; auto. destruct H.
+Qed.
+
+Lemma good_tail2 c1 c2 n2 r2 : chain c1 [] -> chain c2 (n2 :: r2) ->
+  lp_xl c1 < lp_xr c2 -> lp_xl c2 < lp_xr c1 -> lp_xr c1 = lastxr c2 (n2 :: r2) ->
+  good c1 [] c2 (n2 :: r2) (pwl_add_tail ROps c2 (n2 :: r2) c1).
+Proof.
+  intros H1 H2 A B L. pose proof (chain_pos _ _ H1) as P1. pose proof (chain_pos _ _ H2) as P2.
+  destruct (tail_ok (n2 :: r2) c2 c1 H2 P1 A (eq_sym L)) as [T1 T2].
+  destruct (inner_props _ _ H2) as [I1 I2].
+  unfold good. rewrite T2. repeat split; auto.
+  - eapply Forall_impl; [|apply T1]. intros e. apply ev_ok_comm.
+  - eapply Forall_impl; [|apply I2]. cbn beta. cbn [lastxr]. intros x [Q1 Q2].
+    change (lastxr n2 r2) with (lastxr c2 (n2 :: r2)) in Q2. lra.
+  - intros [H|H]; auto. destruct H.
+Qed.
+
+Lemma full_good : forall fuel c1 r1 c2 r2, (length r1 + length r2 <= fuel)%nat ->
+  chain c1 r1 -> chain c2 r2 -> lp_xl c1 < lp_xr c2 -> lp_xl c2 < lp_xr c1 ->
+  lastxr c1 r1 = lastxr c2 r2 ->
+  good c1 r1 c2 r2 (full fuel c1 r1 c2 r2).
+Proof.
+  induction fuel as [|k IH]; intros c1 r1 c2 r2 Hf H1 H2 A B L.
+  - destruct r1, r2; cbn [length] in Hf; try lia. rewrite full_nil1.
+    unfold good. cbn. repeat split; auto using ssorted_nil. tauto.
+  - destruct r1 as [|n1 r1].
+    { rewrite full_nil1. destruct r2 as [|n2 r2].
+      - unfold good. cbn. repeat split; auto using ssorted_nil. tauto.
+      - apply good_tail2; auto. }
+    destruct r2 as [|n2 r2].
+    { rewrite full_nil2. apply good_tail1; auto. }
+    rewrite full_step. cbn [length] in Hf.
+    pose proof H1 as (P1 & J1 & N1). pose proof H2 as (P2 & J2 & N2).
+    pose proof (chain_pos _ _ N1) as Pn1. pose proof (chain_pos _ _ N2) as Pn2.
+    pose proof (chain_lastxr _ _ N1) as Ql1. pose proof (chain_lastxr _ _ N2) as Ql2.
+    cbn [lastxr] in L.
+    destruct (Rltb_spec (lp_xr c1) (lp_xr c2)) as [C|C].
+    { (* advance operand 1 *)
+      destruct (IH n1 r1 c2 (n2 :: r2)) as (G1 & G2 & G3 & G4); auto;
+        try (cbn [length]; lia); try lra.
+      unfold good. cbn [map]. unfold fst3 at 1 3 5. cbn [fst]. repeat split.
+      - constructor.
+        + unfold ev_ok, fst3, snd3. cbn [fst snd].
+          rewrite ch_left_junction, ch_right_junction by auto.
+          rewrite ch_left_head, ch_right_head by lra. cbn [optsum nadd ROps]. split; lra.
+        + rewrite Forall_map in G3. rewrite Forall_forall in *. intros e He.
+          apply ev_ok_skip1; [|auto]. destruct (G3 e He). lra.
+      - apply ssorted_cons; auto. eapply Forall_impl; [|apply G3]. cbn beta; intros; lra.
+      - constructor.
+        + cbn [lastxr]. lra.
+        + eapply Forall_impl; [|apply G3]. cbn beta. cbn [lastxr]. intros; lra.
+      - intros [<-|H]; [left; left; auto|]. apply G4 in H. cbn [inner]. cbn [In]. tauto.
+      - cbn [inner]. cbn [In]. rewrite G4. cbn [inner]. cbn [In]. tauto. }
+    destruct (Rltb_spec (lp_xr c2) (lp_xr c1)) as [D|D].
+    { (* advance operand 2 *)
+      destruct (IH c1 (n1 :: r1) n2 r2) as (G1 & G2 & G3 & G4); auto;
+        try (cbn [length]; lia); try lra.
+      unfold good. cbn [map]. unfold fst3 at 1 3 5. cbn [fst]. repeat split.
+      - constructor.
+        + unfold ev_ok, fst3, snd3. cbn [fst snd].
+          rewrite (ch_left_junction c2), (ch_right_junction c2) by auto.
+          rewrite ch_left_head, ch_right_head by lra. cbn [optsum nadd ROps]. split; lra.
+        + rewrite Forall_map in G3. rewrite Forall_forall in *. intros e He.
+          apply ev_ok_skip2; [|auto]. destruct (G3 e He). lra.
+      - apply ssorted_cons; auto. eapply Forall_impl; [|apply G3]. cbn beta; intros; lra.
+      - constructor.
+        + cbn [lastxr]. lra.
+        + eapply Forall_impl; [|apply G3]. cbn beta. cbn [lastxr]. intros; lra.
+      - intros [<-|H]; [right; left; auto|]. apply G4 in H. cbn [inner]. cbn [In]. tauto.
+      - cbn [inner]. cbn [In]. rewrite G4. cbn [inner]. cbn [In]. tauto. }
+    (* both operands have a breakpoint here *)
+    assert (E : lp_xr c2 = lp_xr c1) by lra.
+    destruct (IH n1 r1 n2 r2) as (G1 & G2 & G3 & G4); auto; try lia; try lra.
+    unfold good. cbn [map]. unfold fst3 at 1 3 5. cbn [fst]. repeat split.
+    + constructor.
+      * unfold ev_ok, fst3, snd3. cbn [fst snd].
+        rewrite ch_left_junction, ch_right_junction by auto. rewrite <- E.
+        rewrite ch_left_junction, ch_right_junction by auto. cbn [optsum nadd ROps]. split; lra.
+      * rewrite Forall_map in G3. rewrite Forall_forall in *. intros e He.
+        destruct (G3 e He) as (Q1 & Q2 & Q3).
+        apply ev_ok_skip1; [lra|]. apply ev_ok_skip2; [lra|]. auto.
+    + apply ssorted_cons; auto. eapply Forall_impl; [|apply G3]. cbn beta; intros; lra.
+    + constructor.
+      * cbn [lastxr]. lra.
+      * eapply Forall_impl; [|apply G3]. cbn beta. cbn [lastxr]. intros; lra.
+    + intros [<-|H]; [left; left; auto|]. apply G4 in H. cbn [inner]. cbn [In]. tauto.
+    + cbn [inner]. cbn [In]. rewrite G4, E. tauto.
+Qed.
+
+(* the chain of a well-formed function *)
+Lemma lpieces_props : forall xs y1 y2, ssorted xs -> (2 <= length xs)%nat ->
+  length xs = S (length y1) -> length y1 = length y2 ->
+  exists c r, lpieces xs y1 y2 = c :: r /\ chain c r /\ lp_xl c = nth 0 xs 0
+              /\ lastxr c r = last xs 0 /\ xs = nth 0 xs 0 :: inner c r ++ [last xs 0]
+              /\ lp_ya c = nth 0 y1 0.
+Proof.
+  induction xs as [|x0 xs IH]; intros y1 y2 Ss Hn L1 L2; cbn [length] in *; [lia|].
+  destruct xs as [|x1 r]; cbn [length] in *; [lia|].
+  destruct y1 as [|ya y1]; cbn [length] in *; [lia|].
+  destruct y2 as [|yb y2]; cbn [length] in *; [lia|].
+  pose proof Ss as Ss'. apply ssorted_cons_inv in Ss' as [S1 F1].
+  assert (Hx : x0 < x1) by (inversion F1; auto).
+  change (lpieces (x0 :: x1 :: r) (ya :: y1) (yb :: y2))
+    with ((x0, ya, yb, x1) :: lpieces (x1 :: r) y1 y2).
+  destruct r as [|x2 r].
+  - exists (x0, ya, yb, x1), []. cbn [lpieces]. repeat split; auto.
+  - destruct (IH y1 y2 S1 ltac:(cbn [length]; lia) ltac:(cbn [length] in *; lia) ltac:(lia))
+      as (c & r' & E & C & X0 & XL & DEC & YA).
+    exists (x0, ya, yb, x1), (c :: r'). rewrite E. cbn [nth] in *.
+    change (last (x0 :: x1 :: x2 :: r) 0) with (last (x1 :: x2 :: r) 0).
+    repeat split; auto.
+    cbn [inner]. unfold lp_xr at 1. cbn [snd]. cbn [app]. rewrite <- DEC. reflexivity.
+Qed.
+
+Lemma pieces_fst : forall (l : list R) a b, map fst (pieces (a :: l ++ [b])) = a :: l.
+Proof.
+  induction l as [|x l IH]; intros a b; [reflexivity|].
+  change (pieces (a :: (x :: l) ++ [b])) with ((a, x) :: pieces (x :: l ++ [b])).
+  cbn [map fst]. rewrite IH. reflexivity.
+Qed.
+Lemma pieces_snd : forall (l : list R) a b, map snd (pieces (a :: l ++ [b])) = l ++ [b].
+Proof.
+  induction l as [|x l IH]; intros a b; [reflexivity|].
+  change (pieces (a :: (x :: l) ++ [b])) with ((a, x) :: pieces (x :: l ++ [b])).
+  cbn [map snd]. rewrite IH. reflexivity.
+Qed.
+
+Lemma pwl_left_last xs y1 y2 : ssorted xs -> (2 <= length xs)%nat ->
+  length xs = S (length y1) -> length y1 = length y2 ->
+  pwl_left ROps xs y1 y2 (last xs 0) = Some (last y2 0).
+Proof.
+  intros Ss Hn L1 L2. rewrite last_nth.
+  assert (Hm : nth (length xs - 2) xs 0 < nth (length xs - 1) xs 0)
+    by (apply ssorted_nth_lt; auto; lia).
+  rewrite (pwl_left_at xs y1 y2 (length xs - 2)); auto; try lia.
+  - replace (S (length xs - 2)) with (length xs - 1)%nat by lia.
+    rewrite lin_right by lra. rewrite (last_nth y2).
+    replace (length y2 - 1)%nat with (length xs - 2)%nat by lia. reflexivity.
+  - replace (S (length xs - 2)) with (length xs - 1)%nat by lia. lra.
+Qed.
+
+(* shape of the model result *)
+Lemma pwl_add_shape x1 y11 y12 x2 y21 y22 c1 r1 c2 r2 :
+  lpieces x1 y11 y12 = c1 :: r1 -> lpieces x2 y21 y22 = c2 :: r2 ->
+  nth 0 x1 0 = nth 0 x2 0 -> last x1 0 = last x2 0 ->
+  pwl_add ROps (x1, y11, y12) (x2, y21, y22)
+  = let evs := full (length x1 + length x2) c1 r1 c2 r2 in
+    Ok (nth 0 x1 0 :: map fst3 evs ++ [last x1 0],
+        (lp_ya c1 + lp_ya c2) :: map snd evs,
+        map snd3 evs ++ [last y12 0 + last y22 0]).
+Proof.
+  intros E1 E2 H0 HL. unfold pwl_add. rewrite E1, E2.
+  rewrite !nthF_R, !lastF_R. cbn [neqb ROps].
+  rewrite (Reqb_t _ _ H0), (Reqb_t _ _ HL). cbn [negb]. unfold full.
+  destruct (pwl_add_loop ROps (length x1 + length x2) c1 r1 c2 r2) as [out [[[d1 s1] d2] s2]].
+  reflexivity.
+Qed.
+
+Lemma ev_ok_maps P1 P2 evs : Forall (ev_ok P1 P2) evs ->
+  map snd evs = map (fun x => optsum ROps (ch_right P1 x) (ch_right P2 x)) (map fst3 evs)
+  /\ map snd3 evs = map (fun x => optsum ROps (ch_left P1 x) (ch_left P2 x)) (map fst3 evs).
+Proof.
+  induction 1 as [|e evs [H1 H2] _ [I1 I2]]; [split; reflexivity|].
+  cbn [map]. rewrite I1, I2, H1, H2. split; reflexivity.
+Qed.
+
+Lemma in_decomp (l : list R) a I b x : l = a :: I ++ [b] -> (In x l <-> a = x \/ In x I \/ b = x).
+Proof. intros ->. cbn [In]. rewrite in_app_iff. cbn [In]. tauto. Qed.
+
+Lemma ssorted_snoc l b : ssorted l -> Forall (fun x => x < b) l -> ssorted (l ++ [b]).
+Proof.
+  induction l as [|a l IH]; intros Ss F; cbn [app].
+  - apply ssorted_cons; auto using ssorted_nil.
+  - apply ssorted_cons_inv in Ss as [Ss Fa]. inversion F; subst. apply ssorted_cons; auto.
+    apply Forall_app; split; auto.
+Qed.
+
+Theorem pwl_add_eq_spec : forall f g, wf_pwl f -> wf_pwl g ->
+  nthF ROps (fst (fst f)) 0 = nthF ROps (fst (fst g)) 0 ->
+  lastF ROps (fst (fst f)) = lastF ROps (fst (fst g)) ->
+  pwl_add ROps f g = Ok (pwl_add_spec ROps f g).
+Proof.
+  intros [[x1 y11] y12] [[x2 y21] y22] W1 W2. cbn [fst snd]. rewrite !nthF_R, !lastF_R.
+  intros H0 HL.
+  apply wf_pwl_inv in W1 as (Ss1 & Hn1 & La1 & Lb1).
+  apply wf_pwl_inv in W2 as (Ss2 & Hn2 & La2 & Lb2).
+  destruct (lpieces_props x1 y11 y12 Ss1 Hn1 La1 Lb1) as (c1 & r1 & E1 & C1 & X1 & XL1 & D1 & YA1).
+  destruct (lpieces_props x2 y21 y22 Ss2 Hn2 La2 Lb2) as (c2 & r2 & E2 & C2 & X2 & XL2 & D2 & YA2).
+  rewrite (pwl_add_shape x1 y11 y12 x2 y21 y22 c1 r1 c2 r2 E1 E2 H0 HL). cbv zeta.
+  pose proof (chain_pos _ _ C1) as P1. pose proof (chain_pos _ _ C2) as P2.
+  assert (Hlen : (length r1 + length r2 <= length x1 + length x2)%nat).
+  { assert (forall r c, length (inner c r) = length r) as IL
+        by (induction r; intros; cbn [inner length]; auto).
+    pose proof (f_equal (@length R) D1) as Q1. pose proof (f_equal (@length R) D2) as Q2.
+    cbn [length] in Q1, Q2. rewrite app_length, IL in Q1, Q2. lia. }
+  destruct (full_good (length x1 + length x2) c1 r1 c2 r2 Hlen C1 C2) as (G1 & G2 & G3 & G4);
+    try lra.
+  set (evs := full (length x1 + length x2) c1 r1 c2 r2) in *.
+  assert (H0T : nth 0 x1 0 < last x1 0).
+  { rewrite last_nth. apply ssorted_nth_lt; auto; lia. }
+  (* the breakpoints *)
+  assert (BS : sort_unique ROps (x1 ++ x2) = nth 0 x1 0 :: map fst3 evs ++ [last x1 0]).
+  { apply pl_ssorted_ext.
+    - apply pl_sort_unique_sorted.
+    - apply ssorted_cons.
+      + apply ssorted_snoc; auto. eapply Forall_impl; [|apply G3]. cbn beta; intros; lra.
+      + apply Forall_app; split; [|constructor; auto].
+        eapply Forall_impl; [|apply G3]. cbn beta; intros; lra.
+    - intros x. rewrite pl_sort_unique_in, in_app_iff.
+      rewrite <- H0, <- HL in D2.
+      rewrite (in_decomp x1 _ _ _ x D1), (in_decomp x2 _ _ _ x D2).
+      rewrite (in_decomp _ _ _ _ x eq_refl). rewrite G4. tauto. }
+  destruct (ev_ok_maps _ _ _ G1) as [M1 M2].
+  assert (A1 : ch_right (c1 :: r1) (nth 0 x1 0) = Some (lp_ya c1)).
+  { rewrite <- X1. rewrite ch_right_head by lra. rewrite lp_at_xl. reflexivity. }
+  assert (A2 : ch_right (c2 :: r2) (nth 0 x1 0) = Some (lp_ya c2)).
+  { rewrite H0, <- X2. rewrite ch_right_head by lra. rewrite lp_at_xl. reflexivity. }
+  pose proof (pwl_left_last x1 y11 y12 Ss1 Hn1 La1 Lb1) as B1.
+  pose proof (pwl_left_last x2 y21 y22 Ss2 Hn2 La2 Lb2) as B2. rewrite <- HL in B2.
+  unfold pwl_add_spec. rewrite BS.
+  set (FR := fun x => optsum ROps (pwl_right ROps x1 y11 y12 x) (pwl_right ROps x2 y21 y22 x)).
+  set (FL := fun x => optsum ROps (pwl_left ROps x1 y11 y12 x) (pwl_left ROps x2 y21 y22 x)).
+  change (fun p : R * R => optsum ROps (pwl_right ROps x1 y11 y12 (fst p))
+                             (pwl_right ROps x2 y21 y22 (fst p)))
+    with (fun p : R * R => FR (fst p)).
+  change (fun p : R * R => optsum ROps (pwl_left ROps x1 y11 y12 (snd p))
+                             (pwl_left ROps x2 y21 y22 (snd p)))
+    with (fun p : R * R => FL (snd p)).
+  rewrite <- (map_map fst FR), <- (map_map snd FL). rewrite pieces_fst, pieces_snd.
+  rewrite map_app. cbn [map].
+  assert (Y0 : FR (nth 0 x1 0) = lp_ya c1 + lp_ya c2).
+  { unfold FR. rewrite !pwl_right_lpieces, E1, E2, A1, A2. reflexivity. }
+  assert (YT : FL (last x1 0) = last y12 0 + last y22 0).
+  { unfold FL. rewrite B1, B2. reflexivity. }
+  assert (Y1 : map FR (map fst3 evs) = map snd evs).
+  { rewrite M1. apply map_ext. intros x. unfold FR.
+    rewrite !pwl_right_lpieces, E1, E2. reflexivity. }
+  assert (Y2 : map FL (map fst3 evs) = map snd3 evs).
+  { rewrite M2. apply map_ext. intros x. unfold FL.
+    rewrite !pwl_left_lpieces, E1, E2. reflexivity. }
+  rewrite Y0, YT, Y1, Y2. reflexivity.
+Qed.
+
+(* ------------------------------------------------------------------ *)
+(* 4. properties of the declarative sum                                *)
+
+Lemma pieces_cons2 (a b : R) l : pieces (a :: b :: l) = (a, b) :: pieces (b :: l).
+Proof. reflexivity. Qed.
+
+Lemma pieces_length : forall l : list R, length (pieces l) = (length l - 1)%nat.
+Proof.
+  induction l as [|a l IH]; [reflexivity|]. destruct l as [|b l]; [reflexivity|].
+  rewrite pieces_cons2. cbn [length] in *. lia.
+Qed.
+
+Lemma ssorted_two l a b : ssorted l -> In a l -> In b l -> a < b -> (2 <= length l)%nat.
+Proof.
+  intros Ss Ha Hb Hab. destruct l as [|x [|y r]]; cbn [length]; try lia.
+  - destruct Ha.
+  - destruct Ha as [<-|[]]. destruct Hb as [<-|[]]. lra.
+Qed.
+
+Lemma pwl_add_spec_wf : forall f g, wf_pwl f -> wf_pwl (pwl_add_spec ROps f g).
+Proof.
+  intros [[x1 y11] y12] [[x2 y21] y22] W1.
+  apply wf_pwl_inv in W1 as (Ss1 & Hn1 & La1 & Lb1).
+  unfold pwl_add_spec, wf_pwl, wf_x. cbn [fst snd]. rewrite !map_length, pieces_length.
+  assert (L : (2 <= length (sort_unique ROps (x1 ++ x2)))%nat).
+  { apply (ssorted_two _ (nth 0 x1 0) (nth 1 x1 0)).
+    - apply pl_sort_unique_sorted.
+    - apply pl_sort_unique_in, in_app_iff. left. apply nth_In. lia.
+    - apply pl_sort_unique_in, in_app_iff. left. apply nth_In. lia.
+    - apply ssorted_nth_lt; auto. }
+  repeat split; auto using pl_sort_unique_sorted. lia.
+Qed.
+
+Theorem pwl_add_wf : forall f g, wf_pwl f -> wf_pwl g ->
+  nthF ROps (fst (fst f)) 0 = nthF ROps (fst (fst g)) 0 ->
+  lastF ROps (fst (fst f)) = lastF ROps (fst (fst g)) ->
+  wf_pwl (pwl_add_spec ROps f g).
+Proof. intros f g W1 _ _ _. apply pwl_add_spec_wf; auto. Qed.
+
+Lemma pwl_add_spec_comm : forall f g, pwl_add_spec ROps f g = pwl_add_spec ROps g f.
+Proof.
+  intros [[x1 y11] y12] [[x2 y21] y22]. unfold pwl_add_spec.
+  assert (E : sort_unique ROps (x1 ++ x2) = sort_unique ROps (x2 ++ x1)).
+  { apply pl_ssorted_ext; auto using pl_sort_unique_sorted.
+    intros x. rewrite !pl_sort_unique_in, !in_app_iff. tauto. }
+  rewrite E. f_equal; [f_equal|]; apply map_ext; intros p; apply optsum_comm.
+Qed.
+
+Theorem pwl_add_comm : forall f g, wf_pwl f -> wf_pwl g ->
+  nthF ROps (fst (fst f)) 0 = nthF ROps (fst (fst g)) 0 ->
+  lastF ROps (fst (fst f)) = lastF ROps (fst (fst g)) ->
+  pwl_add_spec ROps f g = pwl_add_spec ROps g f.
+Proof. intros. apply pwl_add_spec_comm. Qed.
+
+(* ------------------------------------------------------------------ *)
+(* 5. scalar multiple                                                  *)
+
+Lemma lin_mul a b ya yb c t : lin ROps a b (ya * c) (yb * c) t = c * lin ROps a b ya yb t.
+Proof. rewrite !lin_R. unfold Rdiv. ring. Qed.
+
+Lemma pwl_mul_right : forall xs y1 y2 c t,
+  pwl_right ROps xs (map (fun y => y * c) y1) (map (fun y => y * c) y2) t
+  = option_map (fun v => c * v) (pwl_right ROps xs y1 y2 t).
+Proof.
+  induction xs as [|x0 xs IH]; intros y1 y2 c t; [reflexivity|].
+  destruct xs as [|x1 r]; [reflexivity|].
+  destruct y1 as [|ya y1]; [reflexivity|]. destruct y2 as [|yb y2]; [destruct y1; reflexivity|].
+  cbn [map]. rewrite !pwl_right_cons. destruct (nleb ROps x0 t && Rltb t x1).
+  - cbn [option_map]. rewrite lin_mul. reflexivity.
+  - apply IH.
+Qed.
+Lemma pwl_mul_left : forall xs y1 y2 c t,
+  pwl_left ROps xs (map (fun y => y * c) y1) (map (fun y => y * c) y2) t
+  = option_map (fun v => c * v) (pwl_left ROps xs y1 y2 t).
+Proof.
+  induction xs as [|x0 xs IH]; intros y1 y2 c t; [reflexivity|].
+  destruct xs as [|x1 r]; [reflexivity|].
+  destruct y1 as [|ya y1]; [reflexivity|]. destruct y2 as [|yb y2]; [destruct y1; reflexivity|].
+  cbn [map]. rewrite !pwl_left_cons. destruct (Rltb x0 t && nleb ROps t x1).
+  - cbn [option_map]. rewrite lin_mul. reflexivity.
+  - apply IH.
+Qed.
+
+Theorem pwl_mul_pointwise : forall f c t,
+  let h := pwl_mul ROps f c in
+  pwl_right ROps (fst (fst h)) (snd (fst h)) (snd h) t
+  = option_map (fun v => c * v) (pwl_right ROps (fst (fst f)) (snd (fst f)) (snd f) t)
+  /\ pwl_left ROps (fst (fst h)) (snd (fst h)) (snd h) t
+     = option_map (fun v => c * v) (pwl_left ROps (fst (fst f)) (snd (fst f)) (snd f) t).
+Proof.
+  intros [[xs y1] y2] c t. cbn [pwl_mul fst snd nmul ROps].
+  split; [apply pwl_mul_right | apply pwl_mul_left].
+Qed.
+
+Corollary pwl_mul_eval : forall f c t,
+  pwl_eval ROps (pwl_mul ROps f c) t = option_map (fun v => c * v) (pwl_eval ROps f t).
+Proof.
+  intros f c t. unfold pwl_eval. destruct (pwl_mul_pointwise f c t) as [E1 E2]. cbv zeta in *.
+  rewrite E1, E2.
+  destruct (pwl_left ROps (fst (fst f)) (snd (fst f)) (snd f) t),
+           (pwl_right ROps (fst (fst f)) (snd (fst f)) (snd f) t); cbn [option_map eval_of]; auto.
+  f_equal. rops. field.
+Qed.
+
+(* ------------------------------------------------------------------ *)
+(* 6. plottable data                                                   *)
+
+Lemma dup_length {A} (l : list A) : length (dup l) = (2 * length l)%nat.
+Proof. induction l as [|a l IH]; cbn [dup length]; lia. Qed.
+Lemma dup_app {A} (l1 l2 : list A) : dup (l1 ++ l2) = dup l1 ++ dup l2.
+Proof. induction l1 as [|a l IH]; cbn [dup app]; [reflexivity|]. rewrite IH. reflexivity. Qed.
+Lemma interleave_length {A} : forall l1 l2 : list A, length l1 = length l2 ->
+  length (interleave l1 l2) = (2 * length l1)%nat.
+Proof.
+  induction l1 as [|a l1 IH]; intros [|b l2] H; cbn [length] in H; try lia; [reflexivity|].
+  cbn [interleave length]. rewrite IH by lia. lia.
+Qed.
+
+(* x0, every interior breakpoint twice, xn *)
+Lemma plot_x_shape (xs : list R) : (2 <= length xs)%nat ->
+  plot_x xs = nth 0 xs 0 :: dup (removelast (tl xs)) ++ [last xs 0].
+Proof.
+  intros Hn. destruct xs as [|x0 r]; cbn [length] in Hn; [lia|].
+  cbn [plot_x nth tl]. f_equal.
+  assert (Hr : r <> []) by (destruct r; cbn [length] in Hn; [lia|discriminate]).
+  rewrite (app_removelast_last 0 Hr) at 1. rewrite dup_app. cbn [dup].
+  replace (last (x0 :: r) 0) with (last r 0) by (destruct r; [contradiction|reflexivity]).
+  change (dup (removelast r) ++ [last r 0; last r 0])
+    with (dup (removelast r) ++ [last r 0] ++ [last r 0]).
+  rewrite app_assoc. rewrite removelast_app by discriminate. cbn [removelast].
+  rewrite app_nil_r. reflexivity.
+Qed.
+
+Theorem pwl_plottable_spec : forall f, wf_pwl f ->
+  let xs := fst (fst f) in let y1s := snd (fst f) in let y2s := snd f in
+  pwl_plottable f
+  = (nth 0 xs 0 :: dup (removelast (tl xs)) ++ [last xs 0], interleave y1s y2s)
+  /\ length (fst (pwl_plottable f)) = (2 * length y1s)%nat
+  /\ length (snd (pwl_plottable f)) = (2 * length y1s)%nat.
+Proof.
+  intros [[xs y1] y2] W. apply wf_pwl_inv in W as (Ss & Hn & L1 & L2). cbn [fst snd].
+  unfold pwl_plottable. cbn [fst snd]. rewrite plot_x_shape by auto. repeat split.
+  - cbn [length]. rewrite app_length, dup_length. cbn [length].
+    assert (length (removelast (tl xs)) = (length xs - 2)%nat).
+    { destruct xs as [|x0 r]; cbn [length] in *; [lia|]. cbn [tl].
+      destruct r as [|x1 r] using rev_ind; cbn [length] in *; [lia|].
+      rewrite removelast_last, app_length. cbn [length]. lia. }
+    lia.
+  - apply interleave_length; auto.
+Qed.
+
+(* ------------------------------------------------------------------ *)
+(* 7. the integral of the sum                                          *)
+
+Definition sumR (l : list R) : R := fold_right Rplus 0 l.
+
+Lemma sumR_add {A} (f g : A -> R) l :
+  sumR (map (fun p => f p + g p) l) = sumR (map f l) + sumR (map g l).
+Proof. induction l as [|a l IH]; cbn [map sumR fold_right]; [lra|]. fold (sumR (map f l)) (sumR (map g l)) (sumR (map (fun p => f p + g p) l)). rewrite IH. lra. Qed.
+
+Lemma int_all_pieces : forall (bs : list R) (F G : R * R -> R),
+  pwl_int_all ROps bs (map F (pieces bs)) (map G (pieces bs))
+  = sumR (map (fun p => (snd p - fst p) * ((F p + G p) / 2)) (pieces bs)).
+Proof.
+  induction bs as [|a bs IH]; intros F G; [reflexivity|].
+  destruct bs as [|b l]; [reflexivity|].
+  rewrite pieces_cons2. cbn [map]. rewrite int_all_cons, IH. reflexivity.
+Qed.
+
+Lemma int_all_overlap xs y1 y2 : wf_pwl (xs, y1, y2) ->
+  pwl_int_all ROps xs y1 y2 = pwl_overlap ROps xs y1 y2 (nth 0 xs 0) (last xs 0).
+Proof.
+  intros W. pose proof (pwl_integral_none (xs, y1, y2) W) as H. cbn [fst snd pwl_integral] in H.
+  injection H as H. exact H.
+Qed.
+
+Lemma ssorted_last_ge a l : ssorted (a :: l) -> a <= last (a :: l) 0.
+Proof.
+  intros Ss. rewrite last_nth. apply ssorted_head_le; auto. cbn [length]. lia.
+Qed.
+
+(* telescoping over a partition *)
+Lemma overlap_pieces_sum xs y1 y2 : ssorted xs -> forall l a, ssorted (a :: l) ->
+  sumR (map (fun p => pwl_overlap ROps xs y1 y2 (fst p) (snd p)) (pieces (a :: l)))
+  = pwl_overlap ROps xs y1 y2 a (last (a :: l) 0).
+Proof.
+  intros Sx. induction l as [|b l IH]; intros a Ss.
+  - cbn [pieces map sumR fold_right last]. rewrite overlap_same; auto.
+  - rewrite pieces_cons2. cbn [map sumR fold_right fst snd].
+    pose proof Ss as Ss'. apply ssorted_cons_inv in Ss' as [S1 F1].
+    fold (sumR (map (fun p => pwl_overlap ROps xs y1 y2 (fst p) (snd p)) (pieces (b :: l)))).
+    rewrite (IH b S1). change (last (a :: b :: l) 0) with (last (b :: l) 0).
+    apply pwl_overlap_additive; auto.
+    + inversion F1; subst; lra.
+    + apply ssorted_last_ge; auto.
+Qed.
+
+Lemma pieces_in : forall bs a b, ssorted bs -> In (a, b) (pieces bs) ->
+  a < b /\ In a bs /\ In b bs /\ (forall x, In x bs -> x <= a \/ b <= x).
+Proof.
+  induction bs as [|u bs IH]; intros a b Ss H; [destruct H|].
+  destruct bs as [|v l]; [destruct H|]. rewrite pieces_cons2 in H.
+  pose proof Ss as Ss'. apply ssorted_cons_inv in Ss' as [S1 F1].
+  assert (Huv : u < v) by (inversion F1; auto).
+  destruct H as [H|H].
+  - injection H as E1 E2. subst u v. repeat split; auto; [left; auto | right; left; auto |].
+    intros x [<-|Hx]; [left; lra|]. right. apply (ssorted_head_min b l); auto.
+  - destruct (IH a b S1 H) as (I1 & I2 & I3 & I4). repeat split; auto; [right; auto | right; auto|].
+    intros x [<-|Hx]; auto. left. pose proof (ssorted_head_min v l a S1 I2). lra.
+Qed.
+
+Lemma locate xs a : ssorted xs -> (2 <= length xs)%nat -> nth 0 xs 0 <= a -> a < last xs 0 ->
+  exists k, (S k < length xs)%nat /\ nth k xs 0 <= a /\ a < nth (S k) xs 0.
+Proof.
+  intros Ss Hn Ha Hb. rewrite last_nth in Hb.
+  pose proof (count_le_len a xs) as Hsl.
+  assert (Hs1 : (0 < count_le ROps a xs)%nat) by (apply count_le_iff; auto; lia).
+  assert (Hs2 : (count_le ROps a xs < length xs)%nat).
+  { assert (~ (length xs - 1 < count_le ROps a xs)%nat); [|lia].
+    rewrite count_le_iff; auto; [lra|lia]. }
+  assert (Hsa : nth (count_le ROps a xs - 1) xs 0 <= a) by (apply count_le_iff; auto; lia).
+  assert (Hsb : a < nth (count_le ROps a xs) xs 0).
+  { assert (~ (count_le ROps a xs < count_le ROps a xs)%nat) as N by lia.
+    rewrite count_le_iff in N; auto; lra. }
+  exists (count_le ROps a xs - 1)%nat.
+  replace (S (count_le ROps a xs - 1)) with (count_le ROps a xs) by lia. auto.
+Qed.
+
+(* a piece of a refinement lies inside one piece of the function *)
+Lemma piece_overlap xs y1 y2 bs p : wf_pwl (xs, y1, y2) -> ssorted bs ->
+  (forall x, In x xs -> In x bs) ->
+  (forall x, In x bs -> nth 0 xs 0 <= x /\ x <= last xs 0) ->
+  In p (pieces bs) ->
+  exists r l, pwl_right ROps xs y1 y2 (fst p) = Some r /\ pwl_left ROps xs y1 y2 (snd p) = Some l
+              /\ pwl_overlap ROps xs y1 y2 (fst p) (snd p) = (snd p - fst p) * ((r + l) / 2).
+Proof.
+  intros W Sb Sub Rng Hp. apply wf_pwl_inv in W as (Ss & Hn & L1 & L2).
+  destruct p as [a b]. cbn [fst snd].
+  destruct (pieces_in bs a b Sb Hp) as (Hab & Ia & Ib & Cons).
+  destruct (Rng a Ia) as [A1 A2]. destruct (Rng b Ib) as [B1 B2].
+  destruct (locate xs a Ss Hn A1 ltac:(lra)) as (k & K & Ka & Kb).
+  assert (Hb : b <= nth (S k) xs 0).
+  { destruct (Cons (nth (S k) xs 0)); [apply Sub, nth_In; lia | lra | auto]. }
+  exists (lin ROps (nth k xs 0) (nth (S k) xs 0) (nth k y1 0) (nth k y2 0) a),
+         (lin ROps (nth k xs 0) (nth (S k) xs 0) (nth k y1 0) (nth k y2 0) b).
+  repeat split.
+  - apply pwl_right_at; auto; lia.
+  - apply pwl_left_at; auto; try lia; lra.
+  - rewrite (overlap_one xs y1 y2 k a b); auto; try lia. unfold trap. unfold Rdiv. ring.
+Qed.
+
+Theorem pwl_add_integral : forall f g, wf_pwl f -> wf_pwl g ->
+  nthF ROps (fst (fst f)) 0 = nthF ROps (fst (fst g)) 0 ->
+  lastF ROps (fst (fst f)) = lastF ROps (fst (fst g)) ->
+  let h := pwl_add_spec ROps f g in
+  pwl_int_all ROps (fst (fst h)) (snd (fst h)) (snd h)
+  = pwl_int_all ROps (fst (fst f)) (snd (fst f)) (snd f)
+    + pwl_int_all ROps (fst (fst g)) (snd (fst g)) (snd g).
+Proof.
+  intros [[x1 y11] y12] [[x2 y21] y22] W1 W2. cbn [fst snd]. rewrite !nthF_R, !lastF_R.
+  intros H0 HL. cbv zeta. unfold pwl_add_spec. cbn [fst snd].
+  pose proof W1 as W1'. pose proof W2 as W2'.
+  apply wf_pwl_inv in W1' as (Ss1 & Hn1 & La1 & Lb1).
+  apply wf_pwl_inv in W2' as (Ss2 & Hn2 & La2 & Lb2).
+  set (bs := sort_unique ROps (x1 ++ x2)).
+  assert (Sb : ssorted bs) by apply pl_sort_unique_sorted.
+  assert (Ib : forall x, In x bs <-> In x x1 \/ In x x2).
+  { intros x. unfold bs. rewrite pl_sort_unique_in, in_app_iff. tauto. }
+  assert (R1 : forall x, In x x1 -> nth 0 x1 0 <= x /\ x <= last x1 0).
+  { intros x Hx. split; [apply nth0_min; auto | rewrite last_nth; apply nth_last_max; auto]. }
+  assert (R2 : forall x, In x x2 -> nth 0 x1 0 <= x /\ x <= last x1 0).
+  { intros x Hx. rewrite H0, HL.
+    split; [apply nth0_min; auto | rewrite last_nth; apply nth_last_max; auto]. }
+  assert (Rb : forall x, In x bs -> nth 0 x1 0 <= x /\ x <= last x1 0).
+  { intros x Hx. apply Ib in Hx. destruct Hx; auto. }
+  assert (I0 : In (nth 0 x1 0) bs) by (apply Ib; left; apply nth_In; lia).
+  assert (IT : In (last x1 0) bs) by (apply Ib; left; rewrite last_nth; apply nth_In; lia).
+  rewrite int_all_pieces.
+  rewrite (map_ext_in _
+    (fun p => pwl_overlap ROps x1 y11 y12 (fst p) (snd p)
+              + pwl_overlap ROps x2 y21 y22 (fst p) (snd p))).
+  2:{ intros p Hp.
+      destruct (piece_overlap x1 y11 y12 bs p W1 Sb) as (r1 & l1 & A1 & B1 & C1); auto.
+      { intros; apply Ib; auto. }
+      destruct (piece_overlap x2 y21 y22 bs p W2 Sb) as (r2 & l2 & A2 & B2 & C2); auto.
+      { intros; apply Ib; auto. }
+      { rewrite <- H0, <- HL. auto. }
+      rewrite A1, A2, B1, B2, C1, C2. cbn [optsum nadd ROps]. unfold Rdiv. ring. }
+  rewrite sumR_add.
+  destruct bs as [|a l] eqn:Eb; [destruct I0|].
+  rewrite !overlap_pieces_sum; auto.
+  assert (Ea : a = nth 0 x1 0).
+  { pose proof (ssorted_head_min a l _ Sb I0). destruct (Rb a ltac:(left; auto)). lra. }
+  assert (El : last (a :: l) 0 = last x1 0).
+  { assert (In (last (a :: l) 0) (a :: l)).
+    { rewrite last_nth. apply nth_In. cbn [length]. lia. }
+    destruct (Rb _ H). pose proof (nth_last_max (a :: l) _ Sb IT) as Q.
+    rewrite <- last_nth in Q. lra. }
+  rewrite El, Ea. rewrite (int_all_overlap x1 y11 y12 W1), (int_all_overlap x2 y21 y22 W2).
+  rewrite <- H0, <- HL. reflexivity.
+Qed.
+
+(* the model result of an addition integrates to the sum of the integrals *)
+Corollary pwl_add_integral_model : forall f g h, wf_pwl f -> wf_pwl g ->
+  nthF ROps (fst (fst f)) 0 = nthF ROps (fst (fst g)) 0 ->
+  lastF ROps (fst (fst f)) = lastF ROps (fst (fst g)) ->
+  pwl_add ROps f g = Ok h ->
+  wf_pwl h /\
+  pwl_int_all ROps (fst (fst h)) (snd (fst h)) (snd h)
+  = pwl_int_all ROps (fst (fst f)) (snd (fst f)) (snd f)
+    + pwl_int_all ROps (fst (fst g)) (snd (fst g)) (snd g).
+Proof.
+  intros f g h W1 W2 H0 HL E. rewrite pwl_add_eq_spec in E by auto. injection E as <-.
+  split; [apply pwl_add_wf; auto | apply pwl_add_integral; auto].
+Qed.
+
+(* Q-instance checks of every statement (README item 7) were run with
+   f = ([0;1#4;1],[1;2],[0;3]), g = ([0;1#2;3#4;1],[1;2;5],[0;3;7]),
+   g' = ([0;1#8;1#4;3#8;1],[1;2;5;1],[0;3;7;2]); no statement had to be corrected. *)
+
+Print Assumptions pwl_add_eq_spec.
+Print Assumptions pwl_integral_overlap.
+Print Assumptions pwl_integral_none.
+Print Assumptions pwl_overlap_additive.
+Print Assumptions pwl_call_scalar_eval.
+Print Assumptions pwl_call_paths_agree.
+Print Assumptions pwl_add_integral.
+Print Assumptions pwl_plottable_spec.
